@@ -9,12 +9,20 @@ import struct
 from .. import interp
 
 ID = "C07"
-LEAN_MODULES = ["Ebv.Props.C07"]
+LEAN_MODULES = ["Ebv.Props.C07", "Ebv.Props.C07TV"]
 MODEL_MODULES = ["Ebv.Model.PktVar"]
 DRIVER = "Drivers/C07.lean"
 THEOREMS = ["Ebv.C07.read_exact", "Ebv.C07.read_old_refuted", "Ebv.C07.write_exact", "Ebv.C07.write_own_bytes",
-            "Ebv.C07.write_then_slice", "Ebv.C07.guard_iff", "Ebv.C07.guard_covers"]
-TRUSTED = ["hand-written model Ebv.PktVar of the code emitted for packet-variable reads/writes/in-place updates, tied by exact correspondence "
+            "Ebv.C07.write_then_slice", "Ebv.C07.guard_iff", "Ebv.C07.guard_covers",
+            # translation validation: every member of the regenerated table of 232 real programs refines the model, for all packets/registers
+            "Ebv.C07TV.table_refines", "Ebv.C07TV.table_covers", "Ebv.C07TV.table_ok", "Ebv.C07TV.read_is_struct",
+            "Ebv.C07TV.write_is_struct", "Ebv.C07TV.exLayout"]
+REGEN_OBLIGATIONS = ["the 232 programs regenerated into Ebv.Generated.ProgramsFmt (32 formats x 7 statement shapes + packet arrays) refine Ebv.PktVar "
+                     "(re-proved against the code emitted now)"]
+TRUSTED = ["translation validation by proof (Ebv.C07TV.table_refines): for the regenerated table the real bytecode is proved to compute the "
+           "model under the Lean eBPF semantics (Ebv.Ebpf + Ebv.XdpRun.runXdp) for all packets and registers; each member at one offset/guard size/"
+           "constant, minimumPacketSize wrapper only - other offsets, constants and the `with packetSize > N` form stay correspondence",
+           "hand-written model Ebv.PktVar of the code emitted for packet-variable reads/writes/in-place updates, tied by exact correspondence "
            "with the real generated code (regenerated every run) executed in harness/vh/interp.py, for the whole format table",
            "harness/vh/interp.py (validated three-way against the Lean ISA model and the kernel)"]
 ASSUMPTIONS = ["host is little-endian (asserted by the harness)", "XDP context gives data/data_end; a packet access outside [data, data_end) is a fault"]
@@ -250,7 +258,9 @@ def replay(ctx, case):
     return {"stored": out[p:p + n].hex() if out else None, "struct": exp.hex()}
 
 
-LEVEL_TEXT = ("Lean 4 proofs over a hand-written model of the code emitted for packet variables, for every byte string/value and the whole "
+LEVEL_TEXT = ("Translation validation by proof of 232 regenerated programs (all 32 formats x read64/read32/write-register/write-constant/"
+              "in-place add + packet arrays: the real bytecode computes Ebv.PktVar for all packets and registers) + "
+              "Lean 4 proofs over a hand-written model of the code emitted for packet variables, for every byte string/value and the whole "
               "format table: reads give struct.unpack's value (read_exact: all 32 formats, full strength since the fix: commit that extends the sign "
               "after the byte swap; the old order is kept as a refuted variant), "
               "writes store exactly struct.pack's bytes and touch no other byte, the "
